@@ -75,6 +75,7 @@ def run(ctx):
     from fast_ticc import admm
     rng = np.random.default_rng(ctx.seed)
     ctx.proof_layer(allowed_axioms=core.R_AX, coq_deps=["Corr/RunAdmm", "Corr/RunViterbi"])
+    core.note_drift(ctx, ANCHORS)
     cov = core.LineCoverage()
     with cov:
         cases = admm_tie.gen_unit_cases(rng, ctx.budget(120, 500))
